@@ -127,6 +127,12 @@ CHECKS = {
             "Exact accept-set analysis on the model; on the real code every explored single-bit alteration of every message either is refused or leaves a zero/one-hot "
             "contribution, as judged by TLC from the recorded shares.",
             "Bit flips only on the real code; re-programmed client strategies on the model only."),
+    "C14": ("DESIGN.md#c14--multithreaded-gadget-evaluation-equals-serial",
+            "TLA+ model of rayon's fold/reduce contract (ParSum.tla): every schedule checked by TLC, with negative controls; observed schedules of the real "
+            "scheduler (hook H5) validated against the contract together with byte equality of outputs, at gadget level and end to end",
+            "All schedules of the contract for up to 6 chunks; hundreds of real schedules across pool sizes 1-16 and chunk counts from 1 to 1000 validated; serial "
+            "and multithreaded Prio3 variants compared byte for byte under identical randomness.",
+            "Real scheduler outcomes are sampled; rayon is assumed to implement its documented contract for schedules not observed."),
 }
 
 NOT_YET = {}
